@@ -120,15 +120,6 @@ func hasWidth(ws []int, w int) bool {
 	return false
 }
 
-func hasKind(prog []string, k string) bool {
-	for _, x := range prog {
-		if x == k {
-			return true
-		}
-	}
-	return false
-}
-
 // compare classifies one observation. want is the specified text.
 func compareText(got, want string, exact bool) (sig, detail string) {
 	if strings.HasPrefix(got, routeErrorMark) {
@@ -163,7 +154,7 @@ func cmaps(e *harness.Env) {
 				entries[i] = buildEntry(k, i, w)
 			}
 			for _, format := range cmapFormats {
-				if (format == "arrsplit" || format == "arrnext") && !hasKind(prog, "rA") {
+				if (format == "arrsplit" || format == "arrnext") && !hasArrayKind(prog) {
 					continue // identical to "lines"
 				}
 				for _, sec := range []string{"grouped", "split"} {
@@ -210,12 +201,12 @@ func cmapGroup(e *harness.Env, prog []string, entries []entry, w int, format, se
 	// which sections hold an array-form entry
 	arrIn := func(i int) bool {
 		if sec == "split" {
-			return entries[i].kind == "rA"
+			return isArrayKind(entries[i].kind)
 		}
 		if !isRange(entries[i].kind) {
 			return false
 		}
-		return hasKind(prog, "rA")
+		return hasArrayKind(prog)
 	}
 	base := []interface{}{"space", "cmap", "prog", strings.Join(prog, "."), "width", w, "fmt", format, "sec", sec, "via", via.name}
 	for i := 0; i <= len(entries); i++ {
@@ -223,7 +214,7 @@ func cmapGroup(e *harness.Env, prog []string, entries []entry, w int, format, se
 		if i < len(entries) {
 			desc = D(append(append([]interface{}{}, base...), "entry", i, "kind", entries[i].kind, "arrsec", yn(arrIn(i)))...)
 		} else {
-			desc = D(append(append([]interface{}{}, base...), "entry", "all", "kind", "all", "arrsec", yn(hasKind(prog, "rA")))...)
+			desc = D(append(append([]interface{}{}, base...), "entry", "all", "kind", "all", "arrsec", yn(hasArrayKind(prog)))...)
 		}
 		if !e.Own(desc) {
 			continue
@@ -237,6 +228,10 @@ func cmapGroup(e *harness.Env, prog []string, entries []entry, w int, format, se
 		}
 		nontrivial := !(len(prog) == 1 && prog[0] == "cB" && format == "lines")
 		if i < len(entries) {
+			if arrIn(i) && !isArrayKind(entries[i].kind) {
+				// coverage: an offset-form entry observed inside a begin/endbfrange block that also holds an array entry
+				e.Add("cmap_offset_entry_in_array_section_"+entries[i].kind, 1)
+			}
 			var sig, det string
 			for _, m := range entries[i].maps {
 				var got string
